@@ -189,33 +189,38 @@ def growCaps : Nat → Nat → Nat → PyM (List Nat)
       .ok (growFactor * cap :: r)
     else .ok []
 
-/-- the bytes `struct.pack('i{n}sdd', len(encoded), padded, 0.0, 0.0)` (native alignment) -/
+/-- the bytes `_init_value` writes: `struct.pack('i{n}sdd', len(encoded), padded, 0.0, 0.0)` (native alignment), or — if the
+source does not pack the doubles — `struct.pack('i{n}s', len(encoded), padded)` -/
 def entryBytes (key : Key) : PyM Bytes :=
   let enc := encodeKey key
   let padded := enc ++ List.replicate (padCountWriter enc.length) (UInt8.ofNat padByte)
   if enc.length < 2147483648 then
-    .ok (le intWidth enc.length ++ padded ++ zeros ((8 - (intWidth + padded.length) % 8) % 8) ++ le64 0 ++ le64 0)
+    if entryPacksDoubles then
+      .ok (le intWidth enc.length ++ padded ++ zeros ((8 - (intWidth + padded.length) % 8) % 8) ++ le64 0 ++ le64 0)
+    else .ok (le intWidth enc.length ++ padded)
   else .error .structError
 
-def initValueStep (used : Nat) (value : Bytes) (s : Fx) : Eff → PyM Fx
+/-- `size` = bytes the entry counts for (what is written, plus the bytes reserved without being written) -/
+def initValueStep (used size : Nat) (value : Bytes) (s : Fx) : Eff → PyM Fx
   | .growLoop =>
     match growKind with
     | .whileLoop => do
-        let caps ← growCaps (used + value.length) s.cap (used + value.length)
+        let caps ← growCaps (used + size) s.cap (used + size)
         .ok (caps.foldl Fx.truncate s)
-    | .ifOnce => .ok (if used + value.length > s.cap then s.truncate (growFactor * s.cap) else s)
+    | .ifOnce => .ok (if used + size > s.cap then s.truncate (growFactor * s.cap) else s)
     | .absent => .ok s
   | .writeEntry => s.sliceWrite used value
   | .writeHeader => do
-      let h ← packInt (used + value.length)
+      let h ← packInt (used + size)
       s.sliceWrite headerPos h
   | _ => .ok s
 
 /-- `_init_value(key)` -/
 def initValue (d : MmapedDict) (key : Key) : PyM (MmapedDict × List Effect) := do
   let value ← entryBytes key
-  let s ← initValueEffects.foldlM (initValueStep d.used value) ⟨d.file, d.capacity, []⟩
-  let used := d.used + value.length
+  let size := value.length + entryReserve
+  let s ← initValueEffects.foldlM (initValueStep d.used size value) ⟨d.file, d.capacity, []⟩
+  let used := d.used + size
   .ok (⟨s.file, s.cap, used, setPos d.positions key (used - positionBack)⟩, s.trace)
 
 def ensure (d : MmapedDict) (key : Key) : PyM (MmapedDict × List Effect) :=
